@@ -242,6 +242,34 @@ theorem cancel_arm_waits {s s' : Sys} (h : s.main = .afterCancel) (hs : Step n o
   | selCtx hm hc => simp at hret
   | waitDone hm hc => exact hc
 
+/-- C46 `straggler_blocks_return`: the step relation has no clock, so "how long ago the context was cancelled" is
+not an enabling condition of any step of main. As long as one task is still inside its function (or has not yet
+written its slot), `All` has not returned - after arbitrarily many further steps of the other goroutines, with the
+context cancelled or not, through either arm of the `select`. (A bounded wait after cancellation would add a step
+`afterCancel → returned` without `closed`, which this theorem excludes.) -/
+theorem straggler_blocks_return (c : Bool) {s : Sys} (hr : Reach n outs (init c) s) {i : Nat} (hlt : i < n)
+    (hrun : s.g i ≠ .done) : s.main ≠ .returned :=
+  fun hret => hrun (returns_after_all n outs c hr hret i hlt).1
+
+/-- non-vacuity of `straggler_blocks_return`: two tasks, task 0 done, context cancelled, main already in the
+cancellation arm, task 1 still running - a reachable state, and main is still waiting there -/
+example : ∃ s, Reach 2 (fun _ => ⟨4, 0⟩) (init false) s ∧ s.cancelled = true ∧ s.main = .afterCancel ∧
+    s.g 0 = .done ∧ s.g 1 = .running := by
+  let o : Nat → Outcome := fun _ => ⟨4, 0⟩
+  let s0 := init false
+  let s1 : Sys := { s0 with g := upd s0.g 0 .fnReturned }
+  let s2 : Sys := { s1 with results := upd s1.results 0 4, g := upd s1.g 0 .done }
+  let s3 : Sys := { s2 with cancelled := true }
+  let s4 : Sys := { s3 with main := .afterCancel }
+  have h1 : Step 2 o s0 s1 := Step.fnRet s0 0 (by decide) rfl
+  have h2 : Step 2 o s1 s2 := by
+    have := Step.write (n := 2) (outs := o) s1 0 (by decide) (by simp [s1, upd])
+    simpa [o, s2] using this
+  have h3 : Step 2 o s2 s3 := Step.cancel s2
+  have h4 : Step 2 o s3 s4 := Step.selCtx s3 rfl rfl
+  refine ⟨s4, ((((Reach.refl s0).step h1).step h2).step h3).step h4, rfl, rfl, ?_, ?_⟩ <;>
+    simp [s4, s3, s2, s1, s0, init, upd]
+
 /-! ### non-vacuity -/
 example : runOrder [⟨5, 0⟩, ⟨7, 3⟩, ⟨9, 0⟩] [2, 0, 1] = expected [⟨5, 0⟩, ⟨7, 3⟩, ⟨9, 0⟩] ∧
     expected [⟨5, 0⟩, ⟨7, 3⟩, ⟨9, 0⟩] = ⟨[5, 0, 9], [0, 3, 0]⟩ := by decide
